@@ -116,6 +116,13 @@ class Run:
         self.say("[sites]", (r2.stdout + r2.stderr).strip())
         if r2.returncode != 0:
             self.broken_obligations.append("translator(sites): " + r2.stderr.strip())
+        # expression-level translation of the arithmetic kernels (a kernel outside the translated subset becomes a stub whose
+        # tie theorem fails, so the failure surfaces as a broken proof obligation of the properties that use the kernel)
+        r3 = subprocess.run([sys.executable, str(ROOT / "tools/fpkernels.py"), str(REPO), str(LEAN / "Fpdec/Gen")],
+                            capture_output=True, text=True)
+        self.say("[kernels]", (r3.stdout + r3.stderr).strip())
+        if r3.returncode != 0:
+            self.broken_obligations.append("translator(kernels): " + r3.stderr.strip()[-400:])
 
     # ------------------------------------------------------------------ 2. proofs
     def lean_build(self):
